@@ -330,6 +330,7 @@ structure Pres (P : Params) (act : Bool) (I : S → Prop) : Prop where
   flags      : ∀ (s : S) f g, I s → I { s with running := f, failed := g }
   calls      : ∀ (s : S) l, I s → I { s with calls := l }
   strict     : ∀ (s : S) c b, (b = true → act = true) → I s → I { s with strict := updF s.strict c b }
+  clear      : ∀ (s : S) scope, I s → I (rtClear P s scope)
 
 /-- operations that are assignment paths or edits, i.e. everything except switching strict
 hints on -/
@@ -493,6 +494,84 @@ theorem runNode_pres (fuel : Nat) (s : S) (n : Nat) (kw : List (Nat × Arg)) (h 
           exact hp.flags s4 _ _ h4
       · exact h2
 
+theorem restoreConns_pres (st : S) (res l : List (Nat × Nat)) (h : I st) :
+    I (restoreConns P st res l).1 := by
+  induction l generalizing st with
+  | nil => exact h
+  | cons p l ih =>
+    obtain ⟨i, o⟩ := p
+    unfold restoreConns
+    split
+    · exact h
+    · rename_i o' _
+      have h1 := hp.connect st i o' h
+      split
+      · rename_i st' heq; rw [heq] at h1; exact ih st' h1
+      · rename_i st' e heq; rw [heq] at h1; exact h1
+
+theorem forge_pres (fuel : Nat) (st : S) (a b : Nat) (h : I st) : I (forge P fuel st a b).1 := by
+  unfold forge
+  split
+  · exact link_pres hp fuel st a (some b) h
+  · split
+    · exact h
+    · rename_i hk
+      refine hp.recv st a (some b) ?_ h
+      intro x hx; cases hx; exact Decidable.not_not.mp hk
+
+theorem restoreLinks_pres (fuel : Nat) (must : Bool) (pre : S) (res : List (Nat × Nat)) (st : S) (l : List Nat)
+    (h : I st) : I (restoreLinks P fuel must pre res st l).1 := by
+  induction l generalizing st with
+  | nil => exact h
+  | cons a l ih =>
+    unfold restoreLinks
+    split
+    · split
+      · exact h
+      · exact ih st h
+    · split
+      · exact h
+      · rename_i b' _
+        have h1 := forge_pres hp fuel st a b' h
+        split
+        · rename_i st' heq; rw [heq] at h1; exact ih st' h1
+        · rename_i st' e heq; rw [heq] at h1; exact h1
+
+theorem restoreComp_pres (fuel : Nat) (pre st : S) (C : Comp) (h : I st) :
+    I (restoreComp P fuel pre st C).1 := by
+  unfold restoreComp
+  simp only
+  have h1 := restoreConns_pres hp st C.resOut
+    (if P.cfg.revIter then (strings pre C.ins).reverse else strings pre C.ins) h
+  split
+  · rename_i st1 e heq; rw [heq] at h1; exact h1
+  · rename_i st1 heq
+    rw [heq] at h1
+    have h2 := restoreLinks_pres hp fuel true pre C.resIn st1 C.mins h1
+    split
+    · rename_i st2 e heq2; rw [heq2] at h2; exact h2
+    · rename_i st2 heq2; rw [heq2] at h2
+      exact restoreLinks_pres hp fuel false pre C.resMOut st2 C.couts h2
+
+theorem restoreAll_pres (fuel : Nat) (pre st : S) (cs : List Comp) (h : I st) :
+    I (restoreAll P fuel pre st cs).1 := by
+  induction cs generalizing st with
+  | nil => exact h
+  | cons C cs ih =>
+    unfold restoreAll
+    have h1 := restoreComp_pres hp fuel pre st C h
+    split
+    · rename_i st' heq; rw [heq] at h1; exact ih st' h1
+    · rename_i st' e heq; rw [heq] at h1; exact h1
+
+theorem roundTrip_pres (fuel : Nat) (s : S) (scope : List Nat) (cs : List Comp) (h : I s) :
+    I (roundTrip P fuel s scope cs).1 := by
+  unfold roundTrip
+  have h1 := restoreAll_pres hp fuel s (rtClear P s scope) cs (hp.clear s scope h)
+  split
+  · rename_i s' heq; rw [heq] at h1; exact h1
+  · exact h
+
 theorem step_pres (fuel : Nat) (s : S) (op : Op) (hop : act = true ∨ op.noActivate) (h : I s) :
     I (step P fuel s op).1 := by
   cases op with
@@ -513,6 +592,7 @@ theorem step_pres (fuel : Nat) (s : S) (op : Op) (hop : act = true ∨ op.noActi
     · exact ha
     · simp [Op.noActivate] at hn; simp [hn] at hb
   | flag n r f => exact hp.flags s _ _ h
+  | roundTrip scope cs => simp only [step, wrap_fst]; exact roundTrip_pres hp fuel s scope cs h
 
 theorem run_pres (fuel : Nat) (s : S) (ops : List Op) (hops : act = true ∨ ∀ op ∈ ops, op.noActivate)
     (h : I s) : I (run P fuel s ops) := by
@@ -530,7 +610,25 @@ theorem run_pres (fuel : Nat) (s : S) (ops : List Op) (hops : act = true ∨ ∀
 
 end pres
 
-theorem good_pres (P : Params) : Pres P false (Good P) where
+/-- what the typed-store invariant needs from pickle's copy of a value: the marker comes back as
+the marker, and a copy is admitted by a hint whenever the original is (it has the same type) -/
+structure CopyOk (P : Params) : Prop where
+  marker : P.copyVal .nd = .nd
+  typed  : ∀ c v, P.admits c v = true → P.admits c (P.copyVal v) = true
+
+theorem copyOk_id (P : Params) (h : P.copyVal = id) : CopyOk P := ⟨by simp [h], by simp [h]⟩
+
+theorem good_pres (P : Params) (hcopy : CopyOk P) : Pres P false (Good P) where
+  clear s scope h := by
+    intro c hs hh
+    have := h c hs hh
+    simp only [rtClear]
+    by_cases hc : c ∈ scope
+    · simp only [hc, if_true]
+      rcases this with h0 | h1
+      · left; rw [h0]; exact hcopy.marker
+      · right; exact hcopy.typed c _ h1
+    · simpa [hc] using this
   vals fuel s c v h := setVal_good P fuel s c v h
   connect s a b h := by
     rcases connectS_cases P s a b with heq | ⟨_, _, _, heq⟩ <;> rw [heq] <;> exact h
@@ -548,7 +646,57 @@ theorem good_pres (P : Params) : Pres P false (Good P) where
     · simp only [updF_other _ _ _ _ hx] at hs
       exact h x hs hh
 
+theorem rtClear_mem (P : Params) (s : S) (scope : List Nat) (a b : Nat) :
+    b ∈ (rtClear P s scope).conns a ↔ b ∈ s.conns a ∧ a ∉ scope ∧ b ∉ scope := by
+  simp only [rtClear]
+  by_cases ha : a ∈ scope
+  · simp [ha]
+  · simp [ha, List.mem_filter]
+
+theorem rtClear_sublist (P : Params) (s : S) (scope : List Nat) (a : Nat) :
+    ((rtClear P s scope).conns a).Sublist (s.conns a) := by
+  simp only [rtClear]
+  by_cases ha : a ∈ scope
+  · simp [ha]
+  · simp only [ha, if_false]; exact List.filter_sublist
+
+theorem rtClear_wf (P : Params) (s : S) (scope : List Nat) (h : WF P s) : WF P (rtClear P s scope) := by
+  refine ⟨⟨?_, ?_, ?_⟩, ?_, ?_, ?_⟩
+  · intro a b
+    show b ∈ (rtClear P s scope).conns a ↔ a ∈ (rtClear P s scope).conns b
+    rw [rtClear_mem, rtClear_mem]
+    have := h.conn.symm a b
+    simp only [toG] at this
+    constructor
+    · intro ⟨h1, h2, h3⟩; exact ⟨this.mp h1, h3, h2⟩
+    · intro ⟨h1, h2, h3⟩; exact ⟨this.mpr h1, h3, h2⟩
+  · intro a b hb
+    have hb' : b ∈ (rtClear P s scope).conns a := hb
+    rw [rtClear_mem] at hb'
+    exact h.conn.typed a b hb'.1
+  · intro a
+    exact List.Nodup.sublist (rtClear_sublist P s scope a) (h.conn.nodup a)
+  · intro i
+    exact List.Pairwise.sublist (rtClear_sublist P s scope i) (h.sorted i)
+  · intro i a ha
+    exact h.stamped i a ((rtClear_sublist P s scope i).subset ha)
+  · intro a r hra
+    simp only [rtClear] at hra
+    by_cases ha : a ∈ scope
+    · simp [ha] at hra
+    · simp only [ha, if_false] at hra
+      cases hr : s.recv a with
+      | none => simp [hr] at hra
+      | some r' =>
+        simp only [hr] at hra
+        by_cases hr' : r' ∈ scope
+        · simp [hr'] at hra
+        · simp only [hr', if_false, Option.some.injEq] at hra
+          subst hra
+          exact h.recv a r' hr
+
 theorem wf_pres (P : Params) : Pres P true (WF P) where
+  clear s scope h := rtClear_wf P s scope h
   vals fuel s c v h := setVal_wf P fuel s c v h
   connect s a b h := connectS_wf P s a b h
   disconnect s a b h := disconnectS_wf P s a b h
